@@ -3,8 +3,9 @@
    values over small address blocks (host space = the low HostBits bits of the last limb), every tree shape, every
    address of the blocks and their outside neighbours.
    Plain blocks (inside 10.1.2.0/24 and 2001:db8::/120): LookupIsMatch must hold.
-   Boundary blocks (around ::, 0.0.0.0, 255.255.255.255, ffff:..:ffff, plus ::/0): the mismatches between the code-shaped
-   I-layer and the reference are printed by the Report constraint (they are design errors of the code, see C42.py). *)
+   Boundary blocks (around ::, 0.0.0.0, 255.255.255.255, ffff:..:ffff, plus ::/0): LookupAnswerOk must hold (::/0 also
+   contains the IPv4-mapped form of IPv4 probes, so the answer is judged by IpAcl!AnswerOk).  Before the repairs
+   01d1a63 (/0 mask) and 251cbd8 (Ip::Address order) TLC found 130 lists of this universe leaving the reference. *)
 EXTENDS IpAcl, AclSplayMC, TLC, Json
 CONSTANTS BlockSet, HostBits
 V4(hi, lo) == <<0, 0, 0, 0, 0, 65535, hi, lo>>
@@ -42,8 +43,10 @@ RefLaws == \A v \in IValues, p \in IProbes :
              /\ (v.k = "cidr" => (Covers(v, p) <=> Fam(p) = v.fam /\ AndMask(p, PLen(v)) = v.a))
              /\ (v # AllV6 => Covers(v, p) = CoversLoose(v, p))
 ASSUME RefLaws
-\* boundary universe: print every (list, probe) on which some tree shape of the I-layer disagrees with the reference
+\* boundary universe: in every tree shape every answer is acceptable to the reference
 Mismatch == {p \in IProbes : \E o \in Lookup(tree, p) : ~AnswerOk(done, p, o)}
+LookupAnswerOk == ~stuck => Mismatch = {}
+\* diagnostics (kept as CONSTRAINTs for manual runs): print the lists that leave the reference
 Report == (~stuck /\ Mismatch # {}) =>
             PrintT(<<"DESIGN", ToJson([list |-> done, tree |-> tree, probes |-> Mismatch, ordered |-> Ordered])>>)
 ReportStuck == stuck => PrintT(<<"STUCK", ToJson([list |-> done])>>)
